@@ -1,4 +1,5 @@
 (* C17 -- lemmas about the definitions GENERATED from typhon/retrieval/oem (coq/gen/oem.v). *)
+Set Warnings "-notation-overridden,-ambiguous-paths".
 From mathcomp Require Import all_ssreflect all_algebra.
 From TyphonGen Require Import oem.
 From Typhon Require Import Model.C17_oem.
@@ -25,27 +26,25 @@ Local Notation A := (averaging_kernel_matrix K Sa Sy).
 (* The only lemmas that look at the shape of the generated terms.  They normalise the association of the
    products and the order of the two summands, so harmless rewrites of the source keep them provable, while a
    wrong transpose / inverse / factor order does not. *)
+Ltac oem_normalise :=
+  rewrite /averaging_kernel_matrix /retrieval_noise /smoothing_error /retrieval_gain_matrix
+          /error_covariance_matrix /Nmx ?mulmxA ?[invmx _ + _]addrC.
+
 Lemma S_unfold : S = invmx N.
-Proof.
-rewrite /error_covariance_matrix /Nmx ?mulmxA.
-by first [ reflexivity | rewrite [invmx Sa + _]addrC ].
-Qed.
+Proof. by oem_normalise. Qed.
 
 Lemma G_unfold : G = invmx N *m K^T *m invmx Sy.
-Proof.
-rewrite /retrieval_gain_matrix /Nmx ?mulmxA.
-by first [ reflexivity | rewrite [invmx Sa + _]addrC ].
-Qed.
+Proof. by oem_normalise. Qed.
 
 Lemma A_unfold : A = G *m K.
-Proof. by rewrite /averaging_kernel_matrix ?mulmxA. Qed.
+Proof. by oem_normalise. Qed.
 
 Lemma smoothing_unfold (x xa : 'cV[F]_(n.+1)) (B : 'M[F]_(n.+1)) :
   smoothing_error x xa B = B *m (x - xa).
-Proof. by rewrite /smoothing_error. Qed.
+Proof. by oem_normalise. Qed.
 
 Lemma noise_unfold (e : 'cV[F]_(m.+1)) : retrieval_noise K Sa Sy e = G *m e.
-Proof. by rewrite /retrieval_noise ?mulmxA. Qed.
+Proof. by oem_normalise. Qed.
 
 Lemma G_is_S_KT_Syinv : G = S *m K^T *m invmx Sy.
 Proof. by rewrite G_unfold S_unfold. Qed.
@@ -284,3 +283,78 @@ have -> : C^T *m C = C^T *m 1%:M *m C by rewrite mulmx1.
 apply: semidef_congr; apply: posdef_semidef; exact: posdef_1.
 Qed.
 End Gram.
+
+(* ------------------------------------------------------------------------------------------------ *)
+(* Part 5: the two limits as explicit bounds that are linear in the scaling factor *)
+Section Limits.
+Variable F : realFieldType.
+
+Lemma qfZ n (a : F) (P : 'M[F]_n) x : qf (a *: P) x = a * qf P x.
+Proof. by rewrite /qf -scalemxAr -scalemxAl mxE. Qed.
+
+Lemma spdZ n (a : F) (P : 'M[F]_n) : 0 < a -> spd P -> spd (a *: P).
+Proof.
+move=> a0 [sP pP]; split; first by rewrite /symmetric linearZ /= sP.
+by move=> x xn0; rewrite qfZ; apply: mulr_gt0 (pP x xn0).
+Qed.
+
+Lemma invmxZ_spd n (a : F) (P : 'M[F]_n) : 0 < a -> spd P -> invmx (a *: P) = a^-1 *: invmx P.
+Proof. by move=> a0 sP; apply: invmxZ; apply: spd_unit; apply: spdZ. Qed.
+
+Variables m n : nat.
+Variable K : 'M[F]_(m.+1, n.+1).
+Variable Sa : 'M[F]_(n.+1).
+Variable Sy : 'M[F]_(m.+1).
+Hypothesis Sa_spd : spd Sa.
+Hypothesis Sy_spd : spd Sy.
+
+Local Notation B := (K^T *m invmx Sy *m K).
+
+(* A = S (K^T Sy^-1 K) *)
+Lemma A_is_S_B : averaging_kernel_matrix K Sa Sy = error_covariance_matrix K Sa Sy *m B.
+Proof. by rewrite A_unfold G_is_S_KT_Syinv !mulmxA. Qed.
+
+(* vanishing prior: with Sa replaced by d Sa, A = S_d B and 0 <= x^T S_d x <= d x^T Sa x *)
+Lemma prior_scaling_bound (d : F) : 0 < d ->
+  let S_d := error_covariance_matrix K (d *: Sa) Sy in
+  averaging_kernel_matrix K (d *: Sa) Sy = S_d *m B /\
+  forall x : 'cV[F]_(n.+1), 0 <= qf S_d x <= d * qf Sa x.
+Proof.
+move=> d0 /=; have dSa := spdZ d0 Sa_spd.
+split; first by rewrite A_unfold G_is_S_KT_Syinv !mulmxA.
+move=> x; apply/andP; split.
+  have [_ pS] := spd_S_spd K dSa Sy_spd; exact: posdef_semidef pS x.
+by have := spd_S_le_Sa K dSa Sy_spd x; rewrite qfB qfZ subr_ge0.
+Qed.
+
+(* vanishing measurement noise, K of full column rank: with Sy replaced by e Sy,
+   I - A = S_e Sa^-1 and 0 <= x^T S_e x <= e x^T (K^T Sy^-1 K)^-1 x *)
+Hypothesis K_full : forall x : 'cV[F]_(n.+1), x != 0 -> K *m x != 0.
+
+Lemma B_spd : spd B.
+Proof.
+have [sY pY] := spd_inv Sy_spd; split.
+  by rewrite /symmetric !trmx_mul trmxK sY mulmxA.
+by move=> x xn0; rewrite qf_congr; apply: pY; apply: K_full.
+Qed.
+
+Lemma noise_scaling_bound (e : F) : 0 < e ->
+  let S_e := error_covariance_matrix K Sa (e *: Sy) in
+  averaging_kernel_matrix K Sa (e *: Sy) = 1%:M - S_e *m invmx Sa /\
+  forall x : 'cV[F]_(n.+1), 0 <= qf S_e x <= e * qf (invmx B) x.
+Proof.
+move=> e0 /=; have eSy := spdZ e0 Sy_spd.
+split; first exact: spd_A_eq_I_minus.
+have P_spd : spd (e *: invmx B) by apply: spdZ e0 _; apply: spd_inv; exact: B_spd.
+(* the same matrix as the posterior covariance of the problem (K := I, prior := e B^-1, noise := Sa) *)
+have -> : error_covariance_matrix K Sa (e *: Sy)
+        = error_covariance_matrix (1%:M : 'M[F]_(n.+1)) (e *: invmx B) Sa.
+  rewrite !S_unfold /Nmx; congr invmx.
+  rewrite trmx1 mulmx1 mul1mx (invmxZ_spd e0 Sy_spd) (invmxZ_spd e0 (spd_inv B_spd)) invmxK.
+  by rewrite -scalemxAr -scalemxAl addrC.
+move=> x; apply/andP; split.
+  have [_ pS] := spd_S_spd (1%:M : 'M[F]_(n.+1)) P_spd Sa_spd; exact: posdef_semidef pS x.
+by have := spd_S_le_Sa (1%:M : 'M[F]_(n.+1)) P_spd Sa_spd x; rewrite qfB qfZ subr_ge0.
+Qed.
+
+End Limits.
